@@ -1,0 +1,173 @@
+//go:build verif
+
+package gen
+
+// Contracts for the code this package GENERATES (the templates in
+// template*.go), checked by the govc verifier (/verif) on freshly generated
+// code for a fixed struct corpus. "GEN" stands for the generated package.
+// Compiled only with the build tag "verif"; comments only.
+
+//@ pred metaHeaps(m) := true
+//@ pred writerOK(p) := p != nil && metaOK(p.meta) && external(p.w)
+
+// ---- Field interface (implemented by every generated field type)
+
+//@ iface Field.Write
+//@   requires metaOK(meta) && external(w)
+//@   modifies meta, HA(meta.rowGroups), heap("sch.ColumnMetaData"), heap("map[string]sch.ColumnChunk"), wfault
+//@   ensures metaOK(meta) && meta.rowGroups == old(meta.rowGroups)
+//@   ensures[C09] err == nil ==> (wfault ==> old(wfault))
+
+//@ iface Field.Schema
+//@   modifies nothing
+
+//@ iface Field.Add
+//@   modifies allheaps
+
+//@ template T in Int32 Int64 Uint32 Uint64 Float32 Float64 String
+//@ loop (*{T}Field).Write#1
+//@   modifies buf, HA(buf.B), HA(bs)
+//@   invariant buf != nil && freshsince(buf) && freshOrNil(buf.B) && freshsince(bs)
+//@ loop (*{T}OptionalField).Write#1
+//@   modifies buf, HA(buf.B), HA(bs)
+//@   invariant buf != nil && freshsince(buf) && freshOrNil(buf.B) && freshsince(bs)
+//@ end template
+
+//@ loop (*BoolField).Write#1
+//@   modifies HA(rawBuf)
+//@   invariant freshsince(rawBuf)
+//@ loop (*BoolOptionalField).Write#1
+//@   modifies HA(rawBuf)
+//@   invariant freshsince(rawBuf)
+
+// ---- writer
+
+// Options passed to the writer constructor. Only "begin" writes to the sink;
+// the options the library itself passes when it chains a page never fail.
+//@ pred pageOpt(f) := fnid(f) == fnidOf("GEN.MaxPageSize$1") || fnid(f) == fnidOf("GEN.withMeta$1") || fnid(f) == fnidOf("GEN.withCompression$1")
+//@ functype func(*GEN.ParquetWriter) error
+//@   requires arg0 != nil
+//@   requires fnid(self) == fnidOf("GEN.begin") ==> external(arg0.w)
+//@   modifies arg0, wfault
+//@   ensures arg0.w == old(arg0.w)
+//@   ensures fnid(self) != fnidOf("GEN.begin") ==> wfault == old(wfault)
+//@   ensures fnid(self) != fnidOf("GEN.withMeta$1") ==> arg0.meta == old(arg0.meta)
+//@   ensures pageOpt(self) ==> res == nil
+//@   ensures[C09] res == nil ==> (wfault ==> old(wfault))
+
+//@ func (*ParquetWriter).Write
+//@   requires writerOK(p)
+//@   modifies p, p.meta, HA(p.meta.rowGroups), heap("sch.ColumnMetaData"), heap("map[string]sch.ColumnChunk"), wfault
+//@   ensures[C09] err == nil ==> (wfault ==> old(wfault))
+//@ loop (*ParquetWriter).Write#1
+//@   modifies p.meta, HA(p.meta.rowGroups), heap("sch.ColumnMetaData"), heap("map[string]sch.ColumnChunk"), wfault
+//@   invariant metaOK(p.meta) && (wfault ==> old(wfault)) && p.meta.rowGroups == old(p.meta.rowGroups)
+//@ loop (*ParquetWriter).Write#2
+//@   modifies p.meta, HA(p.meta.rowGroups), heap("sch.ColumnMetaData"), heap("map[string]sch.ColumnChunk"), wfault
+//@   invariant metaOK(p.meta) && (wfault ==> old(wfault)) && p.meta.rowGroups == old(p.meta.rowGroups)
+//@ loop (*ParquetWriter).Write#3
+//@   modifies HA(schema)
+//@   invariant freshsince(schema) && metaOK(p.meta) && (wfault ==> old(wfault)) && #schema == #p.fields
+
+//@ func (*ParquetWriter).Close
+//@   requires writerOK(p)
+//@   modifies heap("sch.ColumnMetaData"), heap("sch.SchemaElement"), wfault
+//@   ensures[C09] err == nil ==> (wfault ==> old(wfault))
+
+//@ func begin
+//@   requires p != nil && external(p.w)
+//@   modifies wfault
+//@   ensures[C09] err == nil ==> (wfault ==> old(wfault))
+
+//@ func Fields
+//@   modifies nothing
+//@   ensures freshsince(res)
+
+//@ func fieldCompression
+//@   modifies nothing
+//@ func optionalFieldCompression
+//@   modifies nothing
+//@ func maxDef
+//@   modifies nothing
+//@ loop maxDef#1
+//@   invariant true
+
+//@ template T in Int32 Int64 Uint32 Uint64 Float32 Float64 Bool String
+//@ func New{T}Field
+//@   modifies nothing
+//@   ensures res != nil && freshsince(res)
+//@ func New{T}OptionalField
+//@   modifies nothing
+//@   ensures res != nil && freshsince(res)
+//@ end template
+
+//@ func NewParquetWriter
+//@   requires external(w)
+//@   requires forall k in 0..#opts: fnid(opts[k]) != fnidOf("GEN.withMeta$1")
+//@   modifies HA(opts), wfault
+//@   ensures err == nil ==> writerOK(res0)
+//@   ensures[C09] err == nil ==> (wfault ==> old(wfault))
+
+//@ func newParquetWriter
+//@   requires external(w) || (forall k in 0..#opts: fnid(opts[k]) != fnidOf("GEN.begin"))
+//@   modifies wfault
+//@   ensures err == nil ==> res0 != nil && freshsince(res0) && res0.w == w
+//@   ensures (forall k in 0..#opts: fnid(opts[k]) != fnidOf("GEN.withMeta$1")) && err == nil ==> metaOK(res0.meta) && freshsince(res0.meta)
+//@   ensures (forall k in 0..#opts: fnid(opts[k]) != fnidOf("GEN.begin")) ==> wfault == old(wfault)
+//@   ensures (forall k in 0..#opts: pageOpt(opts[k])) ==> err == nil
+//@   ensures[C09] err == nil ==> (wfault ==> old(wfault))
+//@ loop newParquetWriter#1
+//@   modifies p, wfault
+//@   invariant p.w == w && (wfault ==> old(wfault)) && 0 <= rangeindex + 1 && rangeindex + 1 <= #opts
+//@   invariant (forall k in 0..rangeindex+1: fnid(opts[k]) != fnidOf("GEN.withMeta$1")) ==> p.meta == nil
+//@   invariant (forall k in 0..rangeindex+1: fnid(opts[k]) != fnidOf("GEN.begin")) ==> wfault == old(wfault)
+//@ loop newParquetWriter#2
+//@   modifies HA(schema)
+//@   invariant freshsince(schema) && #schema == #ff
+
+//@ func (*ParquetWriter).Add
+//@   modifies allheaps
+//@   ensures[C09] wfault == old(wfault)
+//@ loop (*ParquetWriter).Add#1
+//@   invariant wfault == old(wfault)
+
+//@ func MaxPageSize
+//@   modifies nothing
+//@   ensures fnid(res) == fnidOf("GEN.MaxPageSize$1")
+//@ func withMeta
+//@   modifies nothing
+//@   ensures fnid(res) == fnidOf("GEN.withMeta$1")
+//@ func withCompression
+//@   modifies nothing
+//@   ensures fnid(res) == fnidOf("GEN.withCompression$1")
+
+// ---- schema-specific shredding functions (readX) as seen by the field types
+//@ template V in int32 int64 uint32 uint64 float32 float64 bool string
+//@ functype func(GEN.REC) {V}
+//@   modifies nothing
+//@ functype func(GEN.REC, []{V}, []uint8, []uint8) ([]{V}, []uint8, []uint8)
+//@   modifies HA(arg1), HA(arg2), HA(arg3)
+//@   ensures sameOrFresh2(res0, arg1) && sameOrFresh2(res1, arg2) && sameOrFresh2(res2, arg3)
+//@ end template
+//@ loop read*#*
+//@   invariant sameOrFresh2(vals, old(vals)) && sameOrFresh2(defs, old(defs)) && sameOrFresh2(reps, old(reps))
+
+// ---- statistics accumulators
+//@ template T in int32 int64 uint32 uint64 float32 float64
+//@ func (*{T}stats).add
+//@   modifies i
+//@ func (*{T}optionalStats).add
+//@   modifies f
+//@ loop (*{T}optionalStats).add#1
+//@   invariant true
+//@ end template
+//@ func (*stringStats).add
+//@   modifies s
+//@ func (*stringOptionalStats).add
+//@   modifies s
+//@ loop (*stringOptionalStats).add#1
+//@   invariant true
+//@ func (*boolOptionalStats).add
+//@   modifies b
+//@ loop (*boolOptionalStats).add#1
+//@   invariant true
